@@ -79,6 +79,20 @@ def c01(lines, out):
                 v.append(('pairing', '%s ran on_stop %d times' % (r.op, nt)))
             if t[0] == 'dereg' and r.result == '0' and before in ('R', 'P') and nt != (1 if 't' in hooks else 0):
                 v.append(('pairing', '%s of a %s module ran on_stop %d times' % (r.op, before, nt)))
+            if t[0] == 'start' and r.dump and before in ('I', 'S'):
+                # "RUNNING or PAUSED to STOPPED on … a refusing start callback": whatever the hook did meanwhile
+                refused = [val for (inv, val) in r.cbrets if parse_invoke(inv)[0] == 'on_start' and parse_invoke(inv)[2] == t[1]]
+                _, am = parse_dump(r.dump)
+                after = am.get(t[1], {}).get('state')
+                i0 = tr.recs.index(r)
+                inner = []
+                for x in tr.recs[i0 + 1:]:
+                    if x.depth <= r.depth: break
+                    inner.append(x)
+                # the hooks themselves may legitimately bring the module back (a stop hook that starts it again)
+                restarted = any(x.op.split()[0] in ('start', 'resume', 'dispatch', 'loop') for x in inner)
+                if refused and refused[-1] is False and len(refused) == 1 and after in ('R', 'P') and not restarted:
+                    v.append(('refusing_start', '%s: the start callback refused, yet the module is %s afterwards' % (r.op, after)))
     return v
 
 
@@ -106,6 +120,8 @@ def c07(lines, out):
         if t[0] == 'ctx_dereg' and r.result == '0' and ctx is not None and r.depth == 0:
             if ctx['state'] is not None or any(m['state'] != 'Z' for m in mods.values()):
                 v.append(('teardown', 'after m_ctx_deregister: %s' % r.dump))
+        if t[0] == 'ctx_dereg' and pctx['state'] == 'idle' and r.depth == 0 and neg(r.result):
+            v.append(('idle_deregisters', 'm_ctx_deregister on an idle context (no callback running) returned %s' % r.result))
         if t[0] == 'ctx_dereg' and pctx['state'] == 'loop' and r.depth == 0 and not neg(r.result):
             v.append(('looping_refuses', 'm_ctx_deregister on a looping context returned %s' % r.result))
         if t[0] == 'reg' and pctx.get('fin') and r.depth == 0 and not neg(r.result):
@@ -416,6 +432,10 @@ def c18(lines, out):
         t = r.op.split()
         if t[0] == 'tb' and r.result == '0':
             burst[t[1]] = None if t[2] == '0' else int(t[3])
+        if r.result == '-11' and r.prev_dump and len(t) > 1:
+            _, pm = parse_dump(r.prev_dump)
+            if t[1] in pm and pm[t[1]].get('tk', 0) is None and pm[t[1]]['state'] != 'Z' and not r.invokes:
+                v.append(('no_bucket_no_limit', '%s refused with EAGAIN although the module has no token bucket (none configured since its last stop)' % r.op))
         if r.result == '-11' and r.prev_dump and r.dump and r.dump != r.prev_dump and not r.invokes:
             v.append(('refused_unchanged', '%s was refused with EAGAIN but had an effect' % r.op))
         if r.dump:
@@ -437,14 +457,18 @@ def c03(lines, out):
     tr = Trace(lines, out)
     v = common(tr)
     owner = {}
+    ever = set()
+    last_state = {}
     quit_code = None
     for kind, inv, r in tr.events:
         if kind == 'I':
             cb, hd, h, stt, evs = parse_invoke(inv)
-            if cb == 'on_evt' and r.op.split()[0] != 'unstash':
+            if cb == 'on_evt' and r.op.split()[0] != 'unstash' and not any(x.op.split()[0] == 'stash' for x in tr.recs):
                 for k, f in evs:
                     if k == 'fd':
                         o = owner.get(('fd', f[0][1:]))
+                        if o is None and ('fd', f[0][1:]) in ever:
+                            v.append(('registered_only', 'event of descriptor %s delivered to %s although the source is not registered any more' % (f[0], h)))
                         if o and (o[0] != h or 'u' + o[1] != f[1]):
                             v.append(('owner', 'event of descriptor %s registered by %s with u%s delivered to %s with %s' % (f[0], o[0], o[1], h, f[1])))
             continue
@@ -452,6 +476,8 @@ def c03(lines, out):
         if t[0] == 'reg_fd' and r.result == '0':
             # with M_SRC_DUP the source is the library's duplicate (reported as 100 + k)
             owner[('fd', str(100 + int(t[2][1:])) if 'd' in t[3] else t[2][1:])] = (t[1], t[4][1:])
+            ever.add(('fd', str(100 + int(t[2][1:])) if 'd' in t[3] else t[2][1:]))
+            if 'o' in t[3]: ever.discard(('fd', str(100 + int(t[2][1:])) if 'd' in t[3] else t[2][1:]))   # (a one-shot leaves by itself)
         if t[0] == 'dereg_fd' and r.result == '0': owner.pop(('fd', t[2][1:]), None)
         if t[0] == 'quit' and r.result == '0': quit_code = int(t[1]) % 256
         if any(x == 'BATCH !quit' for x in r.out): quit_code = 77
@@ -461,12 +487,25 @@ def c03(lines, out):
             if t[0] == 'dispatch' and pctx['state'] == 'loop' and pctx['quit'] and quit_code is not None and isint(r.result) \
                     and int(r.result) != quit_code and not r.nested:
                 v.append(('quit_code', 'loop stopped with %s, requested code %d' % (r.result, quit_code)))
+        if t[0] == 'dispatch' and isint(r.result) and int(r.result) < 0 and r.result not in ('-22', '-32'):
+            # a delivery step returns the number of events it handled; only "no context" and "being torn down" are refusals
+            v.append(('loop_error', 'm_ctx_dispatch returned %s' % r.result))
+        if t[0] == 'loop' and isint(r.result) and r.depth == 0 and r.prev_dump:
+            pctx, _ = parse_dump(r.prev_dump)
+            if pctx['state'] == 'idle':
+                quits = [int(x.op.split()[1]) % 256 for x in tr.recs if x.op.split()[0] == 'quit' and x.result == '0' and x.depth > 0]
+                forced = any(o == 'BATCH !quit' for o in tr.out)
+                ok = {0} | set(quits) | ({77} if forced else set())
+                if int(r.result) >= 0 and int(r.result) not in ok:
+                    v.append(('loop_error', 'm_ctx_loop returned %s: no module asked to quit with that code (requested: %s)' % (r.result, sorted(set(quits)))))
         if r.dump:
             _, mods = parse_dump(r.dump)
             for h, m in mods.items():
-                if m['state'] in ('S', 'Z'):
+                # only the transition into STOPPED / ZOMBIE drops the sources (registering on a stopped module is allowed)
+                if m['state'] in ('S', 'Z') and last_state.get(h) not in ('S', 'Z'):
                     for k in [k for k, o in owner.items() if o[0] == h]:
-                        del owner[k]
+                        del owner[k]; ever.discard(k)
+                last_state[h] = m['state']
     return v
 
 
@@ -491,6 +530,8 @@ def c20(lines, out):
             if k in closed:
                 v.append(('user_fd_once', 'descriptor f%s closed twice' % k))
             closed.add(k)
+        elif b == 'BADFD':
+            v.append(('double_close', 'the library closed a descriptor that is not open (closed before, or never its own)'))
         elif b.startswith('dup:'):
             pass      # a duplicate the library made for itself: its to close (that it does close it is the leak check below)
         elif b == 'pipe-r':
@@ -535,6 +576,19 @@ def c04(lines, out):
 def c13(lines, out):
     tr = Trace(lines, out)
     v = common(tr)
+    size_set = set()
+    for r in tr.recs:
+        t = r.op.split()
+        if t[0] == 'batch_size' and r.result == '0' and t[2] != '0': size_set.add(t[1])
+        if t[0] == 'batch_size' and r.result == '0' and t[2] == '0': size_set.discard(t[1])
+        if r.dump:
+            _, mods = parse_dump(r.dump)
+            for h, m in mods.items():
+                if m['state'] in ('S', 'Z'): size_set.discard(h)
+        if t[0] == 'batch_to' and t[2] == '0' and r.result == '0' and r.dump and t[1] not in size_set:
+            _, mods = parse_dump(r.dump)
+            if mods.get(t[1], {}).get('blen') == 'inf':
+                v.append(('default_immediate', '%s: neither a batch size nor a timeout is configured any more, yet events are still accumulated without bound' % r.op))
     # descriptor events are always delivered at once: the batch that reports a descriptor of a RUNNING
     # module is followed by a handler invocation carrying that descriptor before the call returns
     return v
